@@ -2,6 +2,25 @@ import sys,os
 sys.path.insert(0,os.path.dirname(os.path.dirname(os.path.abspath(__file__))))
 from vlib.runner import Job
 from jobs_lib import other
+def _mappings():
+    # number of quality/bitrate intervals per template, read from the CURRENT source by compiling a two-line probe against lib/vorbisenc.c
+    import subprocess,tempfile
+    from vlib.runner import REPO
+    with tempfile.TemporaryDirectory() as d:
+        c=os.path.join(d,'m.c'); open(c,'w').write('#include <stdio.h>\n#include <stdlib.h>\n#include <string.h>\n#include <ogg/ogg.h>\n#include "vorbisenc.c"\nint ov_ilog(ogg_uint32_t v){return 0;}\nvoid vorbis_info_clear(vorbis_info *v){}\nint main(){for(int i=0;setup_list[i];i++)printf("%d ",setup_list[i]->mappings);return 0;}\n')
+        subprocess.run(['gcc','-w','-I',REPO+'/lib','-I',REPO+'/include','-o',d+'/m',c,'-lm'],check=True,stdout=subprocess.DEVNULL,stderr=subprocess.DEVNULL)
+        return [int(x) for x in subprocess.run([d+'/m'],capture_output=True,text=True).stdout.split()]
+def init_walk_jobs(tier):
+    J=[]; M=_mappings(); q=tier=='quick'
+    for ti,m in enumerate(M):
+        iss=sorted(set([0,m-1])) if q else list(range(m))
+        if q and ti not in (0,1,2,7,11,16): continue
+        for i_s in iss:
+            J.append(Job('init-walk-t%d-s%d'%(ti,i_s),'C15/init_walk.c',defs=['-DTI=%d'%ti,'-DIS=%d'%i_s],unwind=20,unwindset=[('vorbis_encode_compand_setup',None,41)],object_bits=12,checks=['leak'],slice=True,
+                witnesses=['set-up completed'],functions=['vorbis_encode_setup_setting','vorbis_encode_setup_init','vorbis_encode_map_n_res_setup','vorbis_encode_residue_setup','vorbis_encode_floor_setup','vorbis_encode_global_stereo','vorbis_encode_global_psych_setup','vorbis_encode_psyset_setup','vorbis_encode_tonemask_setup','vorbis_encode_compand_setup','vorbis_encode_peak_setup','vorbis_encode_noisebias_setup','book_dup_or_new','setting_to_approx_bitrate','vorbis_info_clear'],
+                models=['real lib/modes/*.h tables','registry free hooks release exactly their argument','get_setup_template contract (tmpl-*)'],tags=['C13'],
+                bounds='template %d of %d, setting interval %d of %d (base_setting any float in [%d,%d) or the clamp value); channels/rate anything the template admits; ctl-settable fields arbitrary in their enforced ranges'%(ti,len(M),i_s,m,i_s,i_s+1),weight=2))
+    return J
 def jobs(tier):
     J=[]
     q=tier=='quick'
@@ -17,6 +36,7 @@ def jobs(tier):
         models=['set-up stages cut to success/documented-error stubs'],bounds='every combination of stage outcomes'))
     J.append(Job('ctl-ratemanage2','C15/ctl_rm2.c',unwind=4,object_bits=12,witnesses=['frozen','accepted','rejected'],functions=['vorbis_encode_ctl'],tags=['C14'],
         models=[],bounds='every field value (kbps fields within +-2^20, reservoir any long, bias/damping any double bit pattern)'))
+    J+=init_walk_jobs(tier)
     J+=other('C14',tier,lambda j:True)[:1]     # managed-mode rate controller (C15-m1 class: candidate index stays inside the 15 blobs)
     return J
 CLAIM={'text':'Bounded model checking of the encoder set-up entry points on the real template tables: template selection yields an in-range table index for every double request and every admissible (channels, rate) (case split over all 17 templates x 2 modes in the thorough tier); the one-step initialisers clear the info structure on every failure; the rate-management control request accepts exactly settings satisfying the controller precondition and refuses changes after set-up is frozen; the managed-mode candidate index stays inside the 15 packet blobs.',
